@@ -16,9 +16,9 @@
 (*                                                                         *)
 (* An entry e of Ent is a transaction or a transaction group (one pool     *)
 (* item keyed by the hash of its head).  Tab[e] = [s: sender of the head,  *)
-(* ms: senders of the other members, fee: fee tier met (1 = minimum rate,  *)
-(* 2 = the 10x tier), xk/xv: expiry kind "n"/"h"(height)/"t"(block time)   *)
-(* and value, eth: eth-signed, nonce, grp: number of members (0 = single)].*)
+(* ms: senders of the other members, fee: fee in units of the minimum rate,  *)
+(* xk/xv: expiry kind "n"/"h"(height)/"t"(block time) and value,           *)
+(* eth: eth-signed, nonce, grp: number of members (0 = single)].            *)
 (*                                                                         *)
 (* Deliberately NOT compared with the implementation:                      *)
 (*  - which error a rejected submission reports (only accept/reject);      *)
@@ -45,6 +45,7 @@ CONSTANTS Ent,        \* entry ids (small integers)
           Defects,    \* static admission defects a submission may carry (C22 rows)
           MaxRm,      \* bound on the size of an explicit removal list
           QueryOn,    \* producer-list queries are part of Next
+          NodeRig,    \* generate only what a full node can be made to do: Reorg instead of DelBlock, no lone sweep
           SubW,       \* weight of good submissions in random generation (1 in exhaustive runs)
           MaxOps,     \* bound on the number of steps (0 = unbounded)
           EmitOn      \* build the JSON action label
@@ -110,7 +111,10 @@ None == <<"none", 0>>
 SameHash(d) == d[1] = "none" \/ d[1] = "sig"
 SameSender(d) == ~(d[1] = "blkfrom" /\ d[2] = 0)
 AllSenders(e) == {Tab[e].s} \cup Tab[e].ms
-ReqTier(p) == IF LevelFee /\ Len(p) >= TierAt THEN 2 ELSE 1
+\* fees are in units of the minimum rate; an item of w members needs w units at the base rate and
+\* 10 w units once the pool holds TierAt items (tiered fee, base.go getLevelFeeRate)
+Weight(e) == IF Tab[e].grp = 0 THEN 1 ELSE Tab[e].grp
+ReqRate(p) == IF LevelFee /\ Len(p) >= TierAt THEN 10 ELSE 1
 Pending(e) == \E i \in 1..Len(pool) : /\ pool[i].id # e
                                       /\ Tab[pool[i].id].s = Tab[e].s
                                       /\ Tab[pool[i].id].nonce = Tab[e].nonce
@@ -119,7 +123,7 @@ Viol(e, d) ==
   \cup (IF SameHash(d) /\ e \in IdSet(pool) THEN {"inpool"} ELSE {})
   \cup (IF SameHash(d) /\ e \in ChainSet THEN {"onchain"} ELSE {})
   \cup (IF ExpiredAt(e, HdrH, HdrT) \/ TooClose(e, now) THEN {"expired"} ELSE {})
-  \cup (IF Tab[e].fee < ReqTier(pool) /\ d[1] # "fee" THEN {"tier"} ELSE {})
+  \cup (IF Tab[e].fee < ReqRate(pool) * Weight(e) /\ d[1] # "fee" THEN {"tier"} ELSE {})
   \cup (IF \E m \in AllSenders(e) : (m # Tab[e].s \/ SameSender(d)) /\ Cnt(pool, m) >= PerSender THEN {"limit"} ELSE {})
   \cup (IF Len(pool) >= Cap THEN {"full"} ELSE {})
   \cup (IF Tab[e].eth /\ SameSender(d) /\ Tab[e].nonce < CurNonce(Tab[e].s) THEN {"noncelow"} ELSE {})
@@ -208,6 +212,7 @@ BlockOK(b) == /\ IsDistinct(b)
               /\ \A i \in 1..(Len(b) - 1) : b[i] < b[i + 1]
 AddBlock(b) ==
   /\ Step /\ Len(chain) < MaxH /\ BlockOK(b)
+  /\ (NodeRig => Len(b) >= 1)           \* the solo consensus of a real node rejects empty blocks
   /\ LET p2 == Sweep(Without(pool, SeqToSet(b)), HdrH + 1, now, now) IN
      /\ pool' = p2
      /\ latest' = Keep(latest, p2)
@@ -235,6 +240,32 @@ DelBlock ==
         /\ latest' = r[2]
         /\ UNCHANGED now
         /\ Emit([op |-> "DelBlock", txs |-> b, ret |-> "ok", chk |-> Chk'])
+
+\* A full node cannot roll a block back without connecting another one: a reorganisation replaces
+\* the tip by a heavier sibling b (EventDelBlock, then EventAddBlock).  The pool receives the two
+\* notifications on channels of different priority and asks the blockchain for the header while the
+\* reorganisation is in progress, so their effects may interleave; the action is enabled only
+\* where every such interleaving gives the same result (the sibling brings transactions the pool
+\* does not hold, no tick since the tip was connected, nothing to sweep, and the re-admission of
+\* the old tip's entries does not depend on which of the two headers is used).
+Reorg(b) ==
+  /\ NodeRig /\ Step /\ chain # <<>>
+  /\ LET old == chain[Len(chain)].txs
+         ch == SubSeq(chain, 1, Len(chain) - 1)
+     IN /\ IsDistinct(b) /\ Len(b) >= 1
+        /\ \A i \in 1..(Len(b) - 1) : b[i] < b[i + 1]
+        /\ \A i \in 1..Len(b) : /\ b[i] \notin ChainSetOf(chain) /\ b[i] \notin IdSet(pool)
+                                /\ ~ExpiredAt(b[i], HOf(ch), now)
+        /\ chain[Len(chain)].time = now
+        /\ Sweep(pool, HOf(ch) + 1, now, now) = pool
+        /\ \A i \in 1..Len(old) : ExpiredAt(old[i], HOf(ch), TOf(ch)) = ExpiredAt(old[i], HOf(ch) + 1, now)
+        /\ LET r == ReAdmit(old, HOf(ch), TOf(ch))
+               p2 == Sweep(Without(r[1], SeqToSet(b)), HOf(ch) + 1, now, now)
+           IN /\ pool' = p2
+              /\ latest' = Keep(r[2], p2)
+        /\ chain' = Append(ch, [txs |-> b, time |-> now])
+        /\ UNCHANGED now
+        /\ Emit([op |-> "Reorg", old |-> old, txs |-> b, t |-> now, ret |-> "ok", chk |-> Chk'])
 
 Remove(S) ==
   /\ Step
@@ -281,9 +312,10 @@ QryCands == SmallSets(IdSet(pool) \cup Far, 2)
 Next == \/ \E w \in 1..SubW : \E e \in Ent : Submit(e, None)
         \/ \E e \in Ent : \E d \in DefectsOf(e) : Submit(e, d)
         \/ \E b \in BlkCands : AddBlock(b)
-        \/ DelBlock
+        \/ (~NodeRig /\ DelBlock)
+        \/ \E b \in BlkCands : Reorg(b)
         \/ \E S \in RmCands : Remove(S)
-        \/ SweepNow
+        \/ (~NodeRig /\ SweepNow)
         \/ Tick
         \/ (QueryOn /\ \E n \in 1..(Cap + 1) : \E excl \in QryCands : GetTxList(n, excl))
 
